@@ -223,13 +223,77 @@ def run(ctx):
                 if isinstance(n, ast.Call) and isinstance(n.func, ast.Attribute) and n.func.attr == "tobytes" and not n.args and isinstance(n.func.value, ast.Name) \
                         and n.func.value.id in names:
                     ser_sites.append((m, n))
+    # ... including the implicit ones: a property or a special method (__str__ / __repr__ / __bytes__ / __len__ / __format__ ...) of the command
+    # classes that reaches tobytes() / _next_message_id() takes an id whenever the command is inspected; a use of the command on the send
+    # chain that triggers one (attribute read, str()/repr()/format, a logging argument, an f-string field) is one more serialisation
+    cbase = prog.cls(BASE)
+    cfam = [cbase] + [k for k in prog.subclasses(cbase) if k is not cbase]
+    consuming = {}
+    changed_ = True
+    while changed_:
+        changed_ = False
+        for k in cfam:
+            for mm in k.methods.values():
+                if mm.name in ("tobytes", "_next_message_id") or mm.name in consuming or not mm.params:
+                    continue
+                me = mm.params[0]
+                for n in ast.walk(mm.node):
+                    hit = None
+                    if isinstance(n, ast.Attribute) and isinstance(n.value, ast.Name) and n.value.id == me and isinstance(n.ctx, ast.Load):
+                        if n.attr in ("tobytes", "_next_message_id"):
+                            hit = n.attr
+                        elif n.attr in consuming and (consuming[n.attr].kind == "property" or True):
+                            hit = n.attr
+                    elif isinstance(n, ast.Call) and isinstance(n.func, ast.Name) and n.func.id in ("bytes", "str", "repr", "len", "format") and n.args \
+                            and isinstance(n.args[0], ast.Name) and n.args[0].id == me and {"bytes": "__bytes__", "str": "__str__", "repr": "__repr__", "len": "__len__", "format": "__format__"}[n.func.id] in consuming:
+                        hit = n.func.id
+                    if hit:
+                        consuming[mm.name] = mm
+                        changed_ = True
+                        break
+    if "__repr__" in consuming and "__str__" not in consuming and not any("__str__" in k.methods for k in cfam):
+        consuming["__str__"] = consuming["__repr__"]          # (str() falls back to __repr__)
+    TEXT = [d_ for d_ in ("__str__", "__repr__", "__format__") if d_ in consuming]
+    for k in fam:
+        for m in list(k.methods.values()):
+            if len(m.params) < 1 or not consuming:
+                continue
+            names = set()
+            if m.name.startswith("_send_command") and len(m.params) > 1:
+                names.add(m.params[1])
+            for n in ast.walk(m.node):
+                if isinstance(n, ast.Call) and isinstance(n.func, ast.Attribute) and n.func.attr.startswith("_send_command") and n.args and isinstance(n.args[0], ast.Name):
+                    names.add(n.args[0].id)
+            for n in ast.walk(m.node):
+                if isinstance(n, ast.Attribute) and isinstance(n.value, ast.Name) and n.value.id in names and isinstance(n.ctx, ast.Load) \
+                        and n.attr in consuming and n.attr != "tobytes":
+                    ser_sites.append((m, n))
+                elif TEXT and isinstance(n, ast.Call) and isinstance(n.func, ast.Name) and n.func.id in ("str", "repr", "format", "print") \
+                        and any(isinstance(a_, ast.Name) and a_.id in names for a_ in n.args):
+                    ser_sites.append((m, n))
+                elif "__bytes__" in consuming and isinstance(n, ast.Call) and isinstance(n.func, ast.Name) and n.func.id == "bytes" \
+                        and any(isinstance(a_, ast.Name) and a_.id in names for a_ in n.args):
+                    ser_sites.append((m, n))
+                elif "__len__" in consuming and isinstance(n, ast.Call) and isinstance(n.func, ast.Name) and n.func.id == "len" \
+                        and any(isinstance(a_, ast.Name) and a_.id in names for a_ in n.args):
+                    ser_sites.append((m, n))
+                elif TEXT and isinstance(n, ast.Call) and isinstance(n.func, ast.Attribute) and n.func.attr in ("debug", "info", "warning", "error", "exception", "critical", "log", "format") \
+                        and any(isinstance(a_, ast.Name) and a_.id in names for a_ in list(n.args[1:] if n.func.attr != "format" else n.args) + [kw_.value for kw_ in n.keywords]):
+                    ser_sites.append((m, n))
+                elif TEXT and isinstance(n, ast.FormattedValue) and isinstance(n.value, ast.Name) and n.value.id in names:
+                    ser_sites.append((m, n))
+                elif TEXT and isinstance(n, ast.BinOp) and isinstance(n.op, ast.Mod) and isinstance(n.left, ast.Constant) and isinstance(n.left.value, str) \
+                        and any(isinstance(a_, ast.Name) and a_.id in names for a_ in ast.walk(n.right)):
+                    ser_sites.append((m, n))
+    ctx.count("id_consuming_accessors", len(consuming))
     ctx.count("serialisation_sites", len(ser_sites))
     extra = [(m, n) for m, n in ser_sites if m.qual != "msmart.base_device.Device._send_command"] or ser_sites[1:]
+    implicit = bool(extra) and not (isinstance(extra[0][1], ast.Call) and isinstance(extra[0][1].func, ast.Attribute) and extra[0][1].func.attr == "tobytes")
     ctx.ob("C12.d", "msmart.base_device.Device._send_command", len(ser_sites) >= 1 and not extra,
            "a command handed to the send chain is serialised once (one message id per command on the wire)",
            func=extra[0][0].qual if extra else "msmart.base_device.Device._send_command", file=(extra[0][0] if extra else dev.methods["_send_command"]).module.rel,
            node=extra[0][1] if extra else None, construct="command.tobytes()",
-           fail=(f"{extra[0][0].qual} serialises the command again (`{norm(extra[0][1])}`): every tobytes() takes the next message id, so the ids seen by the "
+           fail=(f"{extra[0][0].qual} serialises the command again (`{norm(extra[0][1])[:80]}`{' through ' + ', '.join(sorted(consuming)) if implicit else ''}): every tobytes() takes the next message id, so the ids seen by the "
                  "device no longer advance by one") if extra else "no serialisation of the command on the way to LAN.send was found")
     # ---------------------------------------------------------------- C12.c all command classes
     base = prog.cls(BASE)
